@@ -1,17 +1,27 @@
 #!/usr/bin/env python3
-"""merge_evidence.py MAIN.json EXTRA.json : fold EXTRA (a sub-property run by another engine) into MAIN."""
+"""merge_evidence.py MAIN.json EXTRA.json [LABEL] : fold EXTRA (a sub-property run by another engine, or - with LABEL - the
+same sub-checks run under another build profile) into MAIN."""
 import json, sys, os
 main, extra = sys.argv[1], sys.argv[2]
+label = sys.argv[3] if len(sys.argv) > 3 else None
 a = json.load(open(main)); b = json.load(open(extra))
 ca, cb = a["coverage"], b["coverage"]
 ca["evaluations"] += cb["evaluations"]
 ca["distinct_nontrivial"] += cb["distinct_nontrivial"]
-ca["rule"] += " | " + cb["rule"]
+if label:
+    note = " | [%s] the same sub-checks once more in a build of harness and library with that profile (%d evaluations)" % (label, cb["evaluations"])
+    if note.split("(")[0] not in ca["rule"]: ca["rule"] += note
+    else: ca["rule"] += " (+%d evaluations: %s)" % (cb["evaluations"], b.get("property_id"))
+    for s in (cb.get("subchecks") or []): s["sub"] = "%s/%s" % (label, s.get("sub"))
+    cb["classes"] = {"%s: %s" % (label, k): v for k, v in (cb.get("classes") or {}).items()}
+    cb["samples"] = []
+else:
+    ca["rule"] += " | " + cb["rule"]
 ca["samples"] = (ca.get("samples") or []) + (cb.get("samples") or [])
 ca["subchecks"] = (ca.get("subchecks") or []) + (cb.get("subchecks") or [])
 for k, v in (cb.get("classes") or {}).items(): ca.setdefault("classes", {})[k] = ca.get("classes", {}).get(k, 0) + v
 ca["exhaustive"] = bool(ca.get("exhaustive")) and bool(cb.get("exhaustive"))
-ca["known_findings_met"] = (ca.get("known_findings_met") or []) + (cb.get("known_findings_met") or [])
+ca["known_findings_met"] = (ca.get("known_findings_met") or []) + ([] if label else (cb.get("known_findings_met") or []))
 a["assumptions"] = list(dict.fromkeys((a.get("assumptions") or []) + (b.get("assumptions") or [])))
 a["wall_s"] += b["wall_s"]
 a["violations"] = a.get("violations", 0) + b.get("violations", 0)
